@@ -402,7 +402,7 @@ def run(ctx):
     rnd = random.Random(ctx.seed)
     bins = {p: ctx.build("gvh-robust", p) for p in ("dev", "release")}
     par = max(1, min(4, ctx.workers))
-    watchdog = int(os.environ.get("C01_WATCHDOG", "120"))   # seconds without progress before a recipe counts as hung
+    watchdog = int(os.environ.get("C01_WATCHDOG", "60"))   # seconds without progress before a recipe counts as hung
     pool = ThreadPoolExecutor(max_workers=par)
 
     # ---- the protocol spec, model-checked (in the background)
@@ -513,14 +513,23 @@ def run(ctx):
     f_dev = pool.submit(sharded_replay, ctx, bins["dev"], recipes, "dev", max(1, par // 2), ThreadPoolExecutor(max_workers=par), watchdog)
     f_rel = pool.submit(sharded_replay, ctx, bins["release"], recipes, "rel", max(1, par // 2), ThreadPoolExecutor(max_workers=par), watchdog)
     obs = {"dev": f_dev.result(), "release": f_rel.result()}
-    # A hang or an abort is confirmed by replaying that recipe alone with a five times longer
+    # A hang or an abort is confirmed by replaying that recipe alone with a three times longer
     # watchdog (a loaded machine must not produce a false `timeout`).
     for prof in ("dev", "release"):
         redo = [i for i, o in enumerate(obs[prof]) if o and o.get("outcome") in ("timeout", "abort")]
+        hangs_confirmed = 0
         for i in redo[:40]:
+            if obs[prof][i].get("outcome") == "timeout" and hangs_confirmed >= 3:
+                # three hangs already confirmed in this profile: the verdict stands; the
+                # remaining suspected hangs are not reported (each would cost minutes)
+                ctx.cov["hangs_not_individually_confirmed"] = ctx.cov.get("hangs_not_individually_confirmed", 0) + 1
+                obs[prof][i] = {"skipped": True}
+                continue
             path = os.path.join(ctx.work, "confirm-%s-%d.cases" % (prof, i))
             write_ndjson(path, [recipes[i]])
-            o2 = ctx.replay(bins[prof], path, "confirm-%s-%d" % (prof, i), 5 * watchdog).get(0)
+            o2 = ctx.replay(bins[prof], path, "confirm-%s-%d" % (prof, i), 3 * watchdog).get(0)
+            if o2 is not None and o2.get("outcome") == "timeout":
+                hangs_confirmed += 1
             if o2 is not None:
                 if o2.get("outcome") != obs[prof][i].get("outcome"):
                     ctx.cov.setdefault("unconfirmed_abnormal", []).append({"recipe": recipes[i].get("id"), "first": obs[prof][i].get("outcome"), "alone": o2.get("outcome", "returned")})
